@@ -221,7 +221,7 @@ def replay_log_step(cex):
     changed = [int((before[r] != after[r]).sum()) for r in range(d)]
     if any(n > 1 for n in changed):
         fails.append(f"more than one counter changed in a row: {changed}")
-    if new_k < UMAX[bits] and (na1 - na0) % (1 << 64) != v:
+    if (na1 - na0) % (1 << 64) != v:
         fails.append(f"n_added grew by {na1 - na0}, expected {v}")
     if nr1 != nr0:
         fails.append("n_records changed")
